@@ -57,6 +57,16 @@ impl TryFrom<CompressionWithLevel> for Compressor {
     type Error = Error;
 
     fn try_from(value: CompressionWithLevel) -> Result<Self, Self::Error> {
+        // The encoders panic (or abort) when handed a level outside of their range.
+        let level_supported = match value {
+            CompressionWithLevel::None | CompressionWithLevel::Zstd(_) => true,
+            CompressionWithLevel::Gzip(level) | CompressionWithLevel::Xz(level) => level <= 9,
+            CompressionWithLevel::Bzip2(level) => (1..=9).contains(&level),
+        };
+        if !level_supported {
+            return Err(Error::UnsupportedCompressionLevel(value.to_string()));
+        }
+
         match value {
             CompressionWithLevel::None => Ok(Compressor::None(Vec::new())),
             #[cfg(feature = "gzip-compression")]
